@@ -387,10 +387,10 @@ func specHeaderV4(op int, htype int, hlen int, hops int, xid string, secs int, f
 //@   let M = mapview(d.Options)
 //@   let E = specEncFrom(M, 0)
 //@   after `buf.Write16(d.Flags)` assert[a] string(buf.Buffer.data) == v4A(d)
-//@   after `writeIP(buf, d.GatewayIPAddr)` assert[b] string(buf.Buffer.data) == v4B(d)
+//@   after `writeIP(buf, d.GatewayIPAddr)` cut[b] string(buf.Buffer.data) == v4B(d) && lexOK(buf) && exact(buf) && exact(buf.Buffer) && buf.err == nil && fresh(buf) && fresh(buf.Buffer) && fresh(buf.Buffer.data) && allocated(buf.Buffer.data) && allocated(buf) && allocated(buf.Buffer)
 //@   after `copy(buf.WriteN(16), d.ClientHWAddr)` assert[chaddr] string(buf.Buffer.data) == v4B(d) + specFixed(string(d.ClientHWAddr), 16, 16)
 //@   after `buf.WriteBytes(sname[:])` assert[sname] string(buf.Buffer.data) == v4B(d) + specFixed(string(d.ClientHWAddr), 16, 16) + specFixed(d.ServerHostName, 63, 64)
-//@   after `buf.WriteBytes(file[:])` assert[file] string(buf.Buffer.data) == v4B(d) + specFixed(string(d.ClientHWAddr), 16, 16) + specFixed(d.ServerHostName, 63, 64) + specFixed(d.BootFileName, 127, 128)
+//@   after `buf.WriteBytes(file[:])` cut[file] string(buf.Buffer.data) == v4B(d) + specFixed(string(d.ClientHWAddr), 16, 16) + specFixed(d.ServerHostName, 63, 64) + specFixed(d.BootFileName, 127, 128) && lexOK(buf) && exact(buf) && exact(buf.Buffer) && buf.err == nil && fresh(buf) && fresh(buf.Buffer) && fresh(buf.Buffer.data) && allocated(buf.Buffer.data) && allocated(buf) && allocated(buf.Buffer)
 //@   after `buf.WriteBytes(magicCookie[:])` cut[header] string(buf.Buffer.data) == v4H(d) && lexOK(buf) && exact(buf) && exact(buf.Buffer) && buf.err == nil && fresh(buf) && fresh(buf.Buffer) && fresh(buf.Buffer.data) && allocated(buf.Buffer.data) && allocated(buf) && allocated(buf.Buffer)
 //@   after `d.Options.Marshal(buf)` assert[options] string(buf.Buffer.data) == v4H(d) + E
 //@   after `buf.Write8(OptionEnd.Code())` cut[end] string(buf.Buffer.data) == v4H(d) + E + specByte(255) && len(buf.Buffer.data) == 241 + len(E) && lexOK(buf) && exact(buf) && exact(buf.Buffer) && buf.err == nil && fresh(buf) && fresh(buf.Buffer) && fresh(buf.Buffer.data) && allocated(buf.Buffer.data) && allocated(buf) && allocated(buf.Buffer)
